@@ -58,6 +58,7 @@ func bld(profile, n, schemes int) map[string]int {
 
 const histDesc = "world of n registrations drawn from the kit (symbolic lifetime, identity form, dependency shape per registration; profile = sub-space), real Build, fixed scope tree (provider, scope, child, sibling), L symbolic resolutions then two sweeps resolving every identity at every node; every observed object is bound to the reference model (identity, producer, arguments, constructor counts)"
 const rebuildDesc = "a collection that was already built once (verdict symbolic) is edited - one registration removed and registered again with a symbolic other lifetime and dependency shape, so that the registration count is unchanged - and built again: the second Build is judged against the model of the edited set exactly like a fresh collection (cycle / lifetime / missing-dependency verdict classes, resolvability, captive instances)"
+const keyedLifeDesc = "one service type registered unkeyed, as \"n0\" and as \"n1\" (each present or not, each with its own symbolic lifetime) and one consumer of symbolic lifetime naming exactly one of these identities (or optionally \"n1\"); built twice (four registration orders, another map-order scheme): equal verdicts; lifetime conflict iff the NAMED identity is scoped under a singleton / transient consumer - never because of another registration of the same type; valid sets build; the consumer receives the instance of the identity it names"
 const buildDesc = "world of n registrations (profile = sub-space of forms and dependency shapes incl. cycles, scoped targets, unregistered targets); Build verdict class vs the model's dependency relation; on success every identity resolved from a fresh scope"
 
 func init() {
@@ -98,6 +99,8 @@ func init() {
 			h("cont.H_Build", bld(2, 2, 1), bld(2, 3, 1), buildCov, 0, buildDesc),
 			h("cont.H_Build", bld(4, 2, 2), bld(4, 3, 2), buildCov, 0, buildDesc),
 			h("cont.H_Rebuild", bld(3, 2, 1), bld(0, 2, 1), append([]string{"model_conflict", "first_build_ok", "first_build_failed"}, buildCov...), 20, rebuildDesc),
+			h("cont.H_Build", bld(6, 4, 1), bld(6, 4, 2), append([]string{"model_conflict"}, buildCov...), 0, buildDesc+"; profile 6: four registrations, interface-typed groups with several members in front of / behind a plain dependency"),
+			h("cont.H_KeyedLifetimes", map[string]int{"order_schemes": 2}, map[string]int{"order_schemes": 4}, []string{"built_twice", "model_conflict"}, 20, keyedLifeDesc),
 		}},
 		propertySpec{ID: "C08", Harnesses: []harnessSpec{
 			h("cont.H_Build", bld(0, 3, 1), bld(0, 3, 2), buildCov, 30, buildDesc),
@@ -105,6 +108,8 @@ func init() {
 			h("cont.H_Build", bld(2, 2, 2), bld(2, 3, 1), buildCov, 0, buildDesc),
 			h("cont.H_Build", bld(4, 2, 2), bld(4, 3, 2), buildCov, 0, buildDesc),
 			h("cont.H_Rebuild", bld(3, 2, 1), bld(0, 2, 1), append([]string{"first_build_ok", "first_build_failed"}, buildCov...), 0, rebuildDesc),
+			h("cont.H_Build", bld(6, 4, 1), bld(6, 4, 2), append([]string{"model_conflict"}, buildCov...), 0, buildDesc+"; profile 6: four registrations, interface-typed groups with several members in front of / behind a plain dependency"),
+			h("cont.H_KeyedLifetimes", map[string]int{"order_schemes": 2}, map[string]int{"order_schemes": 4}, []string{"built_twice", "model_conflict"}, 20, keyedLifeDesc),
 		}},
 	)
 	dsp := func(profile, n, nodes, L, closes, faults, errmask int) map[string]int {
@@ -234,13 +239,15 @@ func init() {
 				h("cont.H_Build", bld(0, 3, 1), bld(0, 3, 2), append([]string{"model_cycle"}, buildCov...), 30, buildDesc),
 				h("cont.H_Build", bld(1, 2, 2), bld(1, 2, 4), append([]string{"model_cycle"}, buildCov...), 0, buildDesc),
 				h("cont.H_Build", bld(4, 2, 2), bld(4, 3, 2), buildCov, 0, buildDesc),
-				h("cont.H_Rebuild", bld(3, 2, 1), bld(0, 2, 1), append([]string{"first_build_ok", "first_build_failed"}, buildCov...), 0, rebuildDesc))
+				h("cont.H_Rebuild", bld(3, 2, 1), bld(0, 2, 1), append([]string{"first_build_ok", "first_build_failed"}, buildCov...), 0, rebuildDesc),
+				h("cont.H_Build", bld(6, 4, 1), bld(6, 4, 2), append([]string{"model_conflict"}, buildCov...), 0, buildDesc+"; profile 6: four registrations, interface-typed groups with several members in front of / behind a plain dependency"))
 		case "C06":
 			properties[i].Harnesses = append(properties[i].Harnesses,
 				h("cont.H_Order", bld(3, 3, 2), bld(0, 3, 2), []string{"both_built", "both_failed_or_differ"}, 20, "the same world registered and built twice: registration order permuted (intra-group order kept) and another map-order scheme; verdict classes equal, wiring of both isomorphic to the model, every singleton constructed after the singletons it received"),
 				h("cont.H_Order", bld(0, 2, 2), bld(0, 2, 4), []string{"both_built", "both_failed_or_differ"}, 0, "as above, every plain dependency shape on two registrations"),
 				h("cont.H_Order", bld(1, 2, 2), bld(1, 2, 4), []string{"both_built", "both_failed_or_differ"}, 0, "as above on keyed / group / interface edges"),
-				h("cont.H_Order", bld(5, 4, 1), bld(5, 4, 2), []string{"both_built", "both_failed_or_differ"}, 0, "as above on four singleton registrations: consumers of an interface-typed value group, group members with plain dependencies of their own (a member may sit deeper in the graph than the members registered after it); four registration orders"))
+				h("cont.H_Order", bld(5, 4, 1), bld(5, 4, 2), []string{"both_built", "both_failed_or_differ"}, 0, "as above on four singleton registrations: consumers of an interface-typed value group, group members with plain dependencies of their own (a member may sit deeper in the graph than the members registered after it); four registration orders"),
+				h("cont.H_KeyedLifetimes", map[string]int{"order_schemes": 2}, map[string]int{"order_schemes": 4}, []string{"built_twice", "model_conflict"}, 20, keyedLifeDesc))
 		}
 	}
 }
